@@ -411,7 +411,10 @@ class GroupBy:
         Count of observations for each group as numpy array containing the ikey or codes.
         Includes empty groups
         """
-        return self.count_ikey()
+        count = self.count_ikey()
+        # cached and shared with key_count: nobody may write into it
+        count.flags.writeable = False
+        return count
 
     @cached_property
     def key_count(self):
@@ -494,11 +497,14 @@ class GroupBy:
             key_map = self._labels_argsort.argsort()
         else:
             key_map = None
-        return self._build_group_sorted_indexer_numba(
+        indexer = self._build_group_sorted_indexer_numba(
             group_key_list=_val_to_numpy(self.group_ikey, as_list=True),
             group_counts=group_counts,
             key_map=key_map,
         )
+        # cached; `groups` hands out views of it: nobody may write into it
+        indexer.flags.writeable = False
+        return indexer
 
     @cached_property
     def groups(self):
